@@ -5,6 +5,7 @@ import re
 
 from sim.orch import CheckBase, Outcome
 from sim.models import basicprog as bp
+from checks import c09
 
 BUILDS = [(3, ('asan', 'bbcbasic_to_text')), (2, ('asan-dbg', 'bbcbasic_to_text')), (3, ('msan-basic', 'bbcbasic_to_text')),
           (1, ('msan-basic', 'bbcbasic_to_text-dbg')), (1, ('rel', 'bbcbasic_to_text')), (1, ('dbg', 'bbcbasic_to_text'))]
@@ -59,8 +60,16 @@ class C08(CheckBase):
         return 600 if tier == 'quick' else 5400
 
     def gen_input(self, rng, dialect_for_gen):
-        kind = rng.weighted([(8, 'mutated'), (3, 'random'), (1, 'empty'), (1, 'missing'), (2, 'valid')])
+        kind = rng.weighted([(8, 'mutated'), (3, 'random'), (1, 'empty'), (1, 'missing'), (2, 'valid'), (4, 'aimed')])
         ent = {'kind': kind}
+        if kind == 'aimed':
+            # one framing- or token-level corruption aimed the way C09 aims them (operand cut off by end of line,
+            # bad length byte, unassigned extension code, ...): each is a distinct error path with its own diagnostic
+            f = c09.CHECK.gen_file(rng, dialect_for_gen, small=rng.chance(0.6))
+            ent['dialect'] = dialect_for_gen
+            ent['lines'] = f['lines']
+            ent['mut'] = c09.CHECK.gen_corruption(rng, f)
+            return ent
         if kind in ('mutated', 'valid'):
             lines = bp.gen_program(rng, dialect_for_gen, nlines=rng.weighted([(4, rng.randint(1, 6)), (2, rng.randint(6, 40))]))
             ent['dialect'] = dialect_for_gen
@@ -98,7 +107,8 @@ class C08(CheckBase):
 
     def gen_case(self, rng, tier, index):
         gd = rng.choice(bp.DIALECT_NAMES)
-        dialect = rng.weighted([(6, gd), (3, None), (2, rng.choice(bp.DIALECT_NAMES)), (1, 'bogus'), (1, 'help'), (1, '')])
+        gd = rng.choice(bp.DIALECT_NAMES + ['PDP11', 'ARM', 'Mac']) if rng.chance(0.3) else gd
+        dialect = rng.weighted([(8, gd), (3, None), (2, rng.choice(bp.DIALECT_NAMES)), (1, 'bogus'), (1, 'help'), (1, '')])
         listo = rng.weighted([(4, None), (5, str(rng.below(8))), (2, rng.choice(['8', '-1', 'x', '7x', '', '99999999999999999999', ' 3', '0x3']))])
         extra = rng.weighted([(12, None), (1, '--frob'), (1, '-x'), (1, '--help'), (1, '--dialect'), (1, '--listo'), (1, '-h'), (1, '-l'), (1, '-d'), (1, '-D'), (1, '--dump-token-maps'), (1, '--dump-token-maps=-'), (1, '--dump-token-maps=nonexistent-dir/x'), (1, '--dial'), (1, '--list=3')])
         ninputs = rng.weighted([(6, 1), (2, 2), (1, 3), (1, 0)])
@@ -118,6 +128,11 @@ class C08(CheckBase):
             return b''
         if ent['kind'] == 'random':
             return ent['data']
+        if ent['kind'] == 'aimed':
+            f = {'dialect': ent['dialect'], 'lines': ent['lines']}
+            if ent.get('mut'):
+                f['mut'] = ent['mut']
+            return c09.materialise(f)
         data = bp.encode(ent['dialect'], [(no, p) for no, p in ent['lines']])
         if ent['kind'] == 'mutated':
             data = mutate(None, data, ent['ops'])
